@@ -441,6 +441,75 @@ theorem meminfo_prefix (c c' : List Byte) (h : c.take 4095 = c'.take 4095) : mem
   unfold meminfo
   rw [readPath_prefix memBuf c c' h]
 
+theorem dropWhile_spaces (k : Nat) (l : List Byte) :
+    (List.replicate k 32 ++ l).dropWhile isSpace = l.dropWhile isSpace := by
+  induction k with
+  | zero => rfl
+  | succ k ih =>
+    rw [List.replicate_succ, List.cons_append, List.dropWhile_cons]
+    have : isSpace 32 = true := by decide
+    rw [this]; exact ih
+
+/-- leading blanks are skipped by the number scanner -/
+theorem scanNum_spaces (base k : Nat) (l : List Byte) : scanNum base (List.replicate k 32 ++ l) = scanNum base l := by
+  unfold scanNum
+  rw [dropWhile_spaces]
+
+theorem scanNum10_decs (ds : List Byte) (hne : ds ≠ []) (hds : ∀ c ∈ ds, IsDecChar c) (rest : List Byte)
+    (hr : NoDecHead rest) : scanNum 10 (ds ++ rest) = some (min (decVal ds) ulongMax, rest) := by
+  have h := strtoulS10_decs ds hne hds rest hr
+  unfold strtoulS at h
+  cases hs : scanNum 10 (ds ++ rest) with
+  | some r => rw [hs] at h; simp only [] at h; rw [h]
+  | none =>
+    rw [hs] at h
+    simp only [] at h
+    -- (0, ds ++ rest) = (min …, rest) is impossible: the lengths differ
+    have := congrArg (fun p => p.2.length) h
+    simp only [List.length_append] at this
+    have : 0 < ds.length := List.length_pos_iff.mpr hne
+    omega
+
+theorem strtoulS10_spaces_decs (k : Nat) (ds : List Byte) (hne : ds ≠ []) (hds : ∀ c ∈ ds, IsDecChar c) (rest : List Byte)
+    (hr : NoDecHead rest) : (strtoulS 10 (List.replicate k 32 ++ (ds ++ rest))).1 = min (decVal ds) ulongMax := by
+  unfold strtoulS
+  rw [scanNum_spaces, scanNum10_decs ds hne hds rest hr]
+
+/-- the kernel's format: `…MemTotal:` + blanks + decimal digits + anything else, the key not occurring earlier, the
+whole file NUL-free and shorter than the buffer: the value stored is the number of kB times 1024 (modulo 2^64) -/
+theorem meminfo_kernel (pre ds rest : List Byte) (k : Nat) (hne : ds ≠ []) (hds : ∀ c ∈ ds, IsDecChar c) (hr : NoDecHead rest)
+    (hfit : (pre ++ (memKey ++ (List.replicate k 32 ++ (ds ++ rest)))).length ≤ 4095)
+    (hnz : ∀ c ∈ pre ++ (memKey ++ (List.replicate k 32 ++ (ds ++ rest))), c ≠ 0)
+    (hfirst : ∀ j, j < pre.length → ¬ memKey <+: (pre ++ (memKey ++ (List.replicate k 32 ++ (ds ++ rest)))).drop j) :
+    meminfo (some (pre ++ (memKey ++ (List.replicate k 32 ++ (ds ++ rest))))) = some ((min (decVal ds) ulongMax * 1024) % 2^64) := by
+  generalize hs : pre ++ (memKey ++ (List.replicate k 32 ++ (ds ++ rest))) = s at *
+  have hsne : s ≠ [] := by
+    rw [← hs]; intro h
+    have := congrArg List.length h
+    simp only [List.length_append, memKey_length, List.length_nil] at this
+    omega
+  have hrp : readPath memBuf (some s) = some s := by
+    unfold readPath readByLength readBytes memBuf
+    have ht : List.take (4096 - 1) s = s := List.take_of_length_le (by omega)
+    simp only [Option.bind_some, ht, hsne, if_false]
+  have hc : cstr s = s := by
+    have := cstr_append_nonzero s [] hnz
+    simpa [cstr] using this
+  have hdrop : s.drop pre.length = memKey ++ (List.replicate k 32 ++ (ds ++ rest)) := by
+    rw [← hs, List.drop_left]
+  have hocc : FirstOcc memKey s pre.length := by
+    refine ⟨?_, ?_, hfirst⟩
+    · rw [hdrop]; exact List.prefix_append _ _
+    · rw [← hs]; simp only [List.length_append]; omega
+  rw [meminfo_some_iff]
+  refine ⟨s, pre.length, hrp, by rw [hc]; exact hocc, by rw [hc]; have := hocc.2.1; rw [memKey_length] at this; exact this, ?_⟩
+  rw [hc]
+  have hd2 : s.drop (pre.length + 10) = List.replicate k 32 ++ (ds ++ rest) := by
+    rw [← List.drop_drop, hdrop]
+    have : memKey.length = 10 := memKey_length
+    rw [← this, List.drop_left]
+  rw [hd2, strtoulS10_spaces_decs k ds hne hds rest hr, Nat.shiftLeft_eq]
+
 /-! ### hwloc_parse_hugepages_info -/
 
 structure HPState.Ok (st : HPState) : Prop where
